@@ -14,6 +14,7 @@ def run(tier, seed):
     n = common.validate_api(chk, tr, key_of=lambda e: "ctxlimit:%s" % e.get("ev", ""))
     chk.leg("trace validation (Layer A judge)", events=n, context_lengths="every length 0..%s plus 2^16-aligned ones" % kw["maxlen"],
             forged="for each over-long context: a signature over the wrapped length byte, and one for the context truncated mod 256")
+    common.nohooks_leg(chk, "ctxlimit", maxlen=300, extra="512,65536")
     common.mc_leg(chk, "MC_Format", tier=tier, workers=12)
     common.mc_leg(chk, "MC_Format", cfg=common.MC_DIR + "/MC_Format_noguard.cfg", expect_violation=True, workers=4)
     common.mc_leg(chk, "MC_API", tier=tier)
